@@ -16,6 +16,8 @@ CONSTANTS
  MaxMergeInputs = 2
  AsyncRelease = FALSE
   WithMergeFail = FALSE
+ BuilderBase = FALSE
+ CopySchedById = FALSE
  MaxOpens = 2
 CONSTRAINT Bound
 INVARIANTS RootIsReplay HeldAreReplays BoltFilesOnDisk RootFilesOnDisk CopyFilesOnDisk CopyIsPrefix
